@@ -129,6 +129,9 @@ class ErrorsMonitor:
         self.prop = prop
         self.ops = ops
 
+    def on_menu_error(self, st, ms, exc, ctx):
+        query_raised(self.prop, st, exc, ctx)
+
     def on_error(self, pre, ms, ev, exc, ctx):
         shape = error_shape(ctx.cfg, list(ctx.path) + [ev], pre, ev)
         if shape != 'plain':
@@ -140,6 +143,13 @@ class ErrorsMonitor:
         sig = exc_signature(exc)
         ctx.violation('operation-raised', f'{ev} raised {type(exc).__name__}: {exc} at {sig[1]}: {sig[2]}',
                       path=list(ctx.path) + [ev], sig=(self.prop, 'raised') + sig + (shape,))
+
+
+def query_raised(prop, st, exc, ctx):
+    sig = exc_signature(exc)
+    shape = error_shape(ctx.cfg, list(ctx.path), st, None)
+    ctx.violation('query-raised', f'an availability query raised {type(exc).__name__}: {exc} at {sig[1]}: {sig[2]}',
+                  path=list(ctx.path), sig=(prop, 'query-raised') + sig + (shape,))
 
 
 class Node:
@@ -218,7 +228,24 @@ def explore(cfg, monitors=(), menu=None, menu_opts=None, dev_bound=None,
             ctx.cur_event = None
             if node.depth > stats['max_depth']:
                 stats['max_depth'] = node.depth
-            evs = menu(st, node)
+            try:
+                evs = menu(st, node)
+            except Exception as exc:
+                # a default-argument query (can_*) raised while the menu was computed: the state cannot be expanded.
+                # Monitors that judge queries report it; otherwise it is a harness-level failure (sx.run raises).
+                sig = exc_signature(exc)
+                ctx.errors[sig] += 1
+                stats['pruned_errors'] += 1
+                handled = False
+                for m, x in zip(monitors, node.ms):
+                    f = getattr(m, 'on_menu_error', None)
+                    if f:
+                        f(st, x, exc, ctx)
+                        handled = True
+                if not handled:
+                    ctx.counters['unhandled_menu_errors'] += 1
+                    ctx.menu_error = (sig, list(ctx.path))
+                continue
             for m, x in zip(monitors, node.ms):
                 f = getattr(m, 'on_state', None)
                 if f:
